@@ -284,6 +284,47 @@ fn end_to_end(rep: &Report, kind: BackendKind) {
         if let Ok(GetVersionResult::Version { .. }) = b.handles[0].get_child_version(Uuid::nil()).await {
             return Err(fail("relabel-accepted", format!("{kind:?}: the second version's sealed bytes stored under the first version's name were returned as data")));
         }
+        // put the first version back, then tamper with the stored SNAPSHOT in the form the backend
+        // really stores it (git: the JSON file as it lies in the repository): every single-byte
+        // modification and every truncation must be answered with an error - or, where the change
+        // is immaterial to the encoding, with exactly the original snapshot - never with "no
+        // snapshot" and never with other data
+        match kind {
+            BackendKind::Http => b.http.as_ref().unwrap().state.lock().unwrap().versions[0].2 = first.bytes.clone(),
+            BackendKind::Cloud => b.store.as_ref().unwrap().raw_put(&first.name, first.bytes.clone(), crate::world::cloud::real_now()),
+            _ => std::fs::write(b.root.as_ref().unwrap().join("clone0").join(&first.name), &first.bytes).unwrap(),
+        }
+        let snap_name = stored.iter().find(|s| s.plain == snap).map(|s| s.name.clone()).unwrap();
+        let raw: Vec<u8> = match kind {
+            BackendKind::Http => b.http.as_ref().unwrap().state.lock().unwrap().snapshots.last().unwrap().1.clone(),
+            BackendKind::Cloud => b.store.as_ref().unwrap().dump().into_iter().find(|o| o.0 == snap_name).unwrap().1,
+            _ => std::fs::read(b.root.as_ref().unwrap().join("clone0").join("snapshot")).unwrap(),
+        };
+        let put_snapshot = |b: &Backend, t: Vec<u8>| match kind {
+            BackendKind::Http => b.http.as_ref().unwrap().state.lock().unwrap().snapshots.last_mut().unwrap().1 = t,
+            BackendKind::Cloud => b.store.as_ref().unwrap().raw_put(&snap_name, t, crate::world::cloud::real_now()),
+            _ => std::fs::write(b.root.as_ref().unwrap().join("clone0").join("snapshot"), t).unwrap(),
+        };
+        let mut variants: Vec<(String, Vec<u8>)> = vec![];
+        for pos in 0..raw.len() {
+            let mut t = raw.clone();
+            t[pos] ^= 1;
+            variants.push((format!("byte {pos} flipped"), t));
+        }
+        for len in 0..raw.len() {
+            variants.push((format!("truncated to {len} bytes"), raw[..len].to_vec()));
+        }
+        for (what, t) in variants {
+            put_snapshot(&b, t);
+            tampers += 1;
+            match b.handles[0].get_snapshot().await {
+                Err(_) => {}
+                Ok(Some((v, data))) if v == v2 && data == snap => {}
+                Ok(Some((_, data))) => return Err(fail("tamper-accepted", format!("{kind:?}: stored snapshot with {what} was returned as data ({} bytes)", data.len()))),
+                Ok(None) => return Err(fail("tamper-hidden", format!("{kind:?}: stored snapshot with {what} is reported as 'no snapshot' instead of an error"))),
+            }
+        }
+        put_snapshot(&b, raw);
         rep.add("evaluations", tampers);
         rep.add("stored_tampers_read_back", tampers);
         Ok(())
@@ -322,7 +363,7 @@ fn b64(s: &str) -> Vec<u8> {
 pub fn run(opts: &Opts) -> i32 {
     let rep = Report::new("C13", "exploration", opts);
     rep.set("exhaustive", true);
-    rep.set("rule", "4 payloads (empty, 1 byte, a JSON version, 64 KB) x 3 secrets x 3 salts x 3 version ids sealed by the crate and opened by an independent implementation of docs/src/encryption.md (ring PBKDF2-HMAC-SHA256 x600000, ChaCha20-Poly1305, AAD 0x01||version id, envelope 0x01||nonce||ct); the reverse direction (model seals, crate opens); every mismatch of secret/salt/version id; every single-byte position x all 255 other values (64 KB payload: all values at both ends, two values elsewhere), every prefix and suffix truncation, appended byte; then what the HTTP harness server, the in-memory object store and the git work tree actually hold after versions and a snapshot with a marker string were handed to the real backends, each stored value flipped one byte at a time and read back through the Server; distinct_nontrivial = tampered + mismatched values tried");
+    rep.set("rule", "4 payloads (empty, 1 byte, a JSON version, 64 KB) x 3 secrets x 3 salts x 3 version ids sealed by the crate and opened by an independent implementation of docs/src/encryption.md (ring PBKDF2-HMAC-SHA256 x600000, ChaCha20-Poly1305, AAD 0x01||version id, envelope 0x01||nonce||ct); the reverse direction (model seals, crate opens); every mismatch of secret/salt/version id; every single-byte position x all 255 other values (64 KB payload: all values at both ends, two values elsewhere), every prefix and suffix truncation, appended byte; then what the HTTP harness server, the in-memory object store and the git work tree actually hold after versions and a snapshot with a marker string were handed to the real backends, each stored version flipped one byte at a time, and the stored snapshot (in the form the backend really keeps it) flipped one byte at a time and truncated to every length, and read back through the Server; distinct_nontrivial = tampered + mismatched values tried");
     rep.assume("the independent implementation is self-checked against RFC 8439 2.8.2 and RFC 7914 test vectors at start-up");
     if let Err(e) = mseal::self_check() {
         eprintln!("MACHINERY ERROR: sealing model self-check failed: {e}");
